@@ -190,11 +190,11 @@ theorem handler_marked_blocked (s : State E) (hh : isHandler s = true) (hm : s.m
 
 /-- the state after the finalizer-adding turn -/
 def addState (env : Env) (s : State E) : State E :=
-  { s with blocked := true, now := s.now + env.lat, pending := true, writes := s.writes + 1 }
+  { s with blocked := true, now := s.now + env.lat, pending := true, writes := s.writes + cp env + 1 }
 
 /-- the state after the turn that removes the unneeded finalizer -/
 def remState (env : Env) (s : State E) (g : Bool) : State E :=
-  { s with blocked := false, gone := g, now := s.now + env.lat, pending := !g, writes := s.writes + 1 }
+  { s with blocked := false, gone := g, now := s.now + env.lat, pending := !g, writes := s.writes + cp env + 1 }
 
 /-- RANKING. Every turn of the loop that consumes an event strictly decreases the bound. -/
 theorem step_decreases (env : Env) (wf : WF env) (hfin : AllFinal env) (s : State E)
@@ -265,7 +265,7 @@ theorem step_decreases (env : Env) (wf : WF env) (hfin : AllFinal env) (s : Stat
   rotate_left
   · -- blind: nothing is done
     have hpm' : env.prematch = false := by simpa using hpm
-    have hst : loopStep env s = { s with pending := false } := by
+    have hst : loopStep env s = { s with pending := false, writes := s.writes + cp env } := by
       unfold loopStep; simp [hp, hg', hadd', hrem', hrun, hpm']
     have := core_pos env s
     rw [hst, hbs, hadj]; unfold bound; simp; omega
@@ -337,7 +337,8 @@ theorem turn_cases (env : Env) (s : State E) (hp : s.pending = true) (hg : s.gon
         loopStep env s = addState env s) ∨
     ((decisionOf env s).removeUnneeded = true ∧ s.blocked = true ∧
         loopStep env s = remState env s (s.marked && !env.foreignFins)) ∨
-    (adjusting env s = false ∧ env.prematch = false ∧ loopStep env s = { s with pending := false }) ∨
+    (adjusting env s = false ∧ env.prematch = false ∧
+        loopStep env s = { s with pending := false, writes := s.writes + cp env }) ∨
     (adjusting env s = false ∧ env.prematch = true ∧ s.marked = true ∧ s.blocked = true ∧
         (decisionOf env s).release = true ∧ loopStep env s = releaseTurn env s) ∨
     (adjusting env s = false ∧ env.prematch = true ∧ (decisionOf env s).release = false ∧
